@@ -432,6 +432,15 @@ def in_outcomes(facts, ib, operand, hv, nv):
     return sorted(set(outs)), (ms[0] if len(ms) == 1 else None)
 
 
+def _is_json_value(b, x):
+    """x is a JSON value constant or construction (the NULL item, a promoted `&Value::Null`, `Value::Null` …)."""
+    if x[0] == "const" and ("serde_json::Value" in str(x[1].get("ty", "")) or "item" in x[1] or "promoted" in x[1]):
+        return "serde_json::Value" in str(x[1].get("ty", "")) or "NULL" in str(x[1].get("item", "")) or "promoted" in x[1]
+    if x[0] == "agg" and x[1].get("adt") == "serde_json::Value":
+        return True
+    return False
+
+
 def missing_key(ctx, facts, unit, mf, cfg):
     """K3.missing-key on path summaries + case normal form: in every body of the membership equality that looks a key
     up in the other object (`Map::get`), every way the code can go on when the lookup answers None — an `unwrap_or` /
@@ -493,6 +502,10 @@ def missing_key(ctx, facts, unit, mf, cfg):
                     if out is False:
                         decided += 1
                         ctx.ok("K3.missing-key", key, nontrivial=True)
+                    elif out is None and val is not None and _is_json_value(b, strip_refs(val)):
+                        # the lookup's miss is replaced by a *value* (`get(key).unwrap_or(&NULL)`): the comparison goes on
+                        # with a stand-in, so a key the other object lacks is the same as that key holding the stand-in
+                        ctx.fail("K3.missing-key", key, "for a key that the other object lacks the lookup yields a stand-in value (%s) that is then compared: {\"a\": null} and {\"b\": null} would be the same element" % show_expr(val)[:60], where=b.where(), fn=b.key)
                     elif out is None:
                         ctx.unread("K3.missing-key", key, "for a key that the other object lacks the membership equality yields %s" % show_expr(val)[:80], where=b.where(), fn=b.key)
                     else:
